@@ -483,7 +483,7 @@ def main():
     if a.prop == 'MATRIX':
         return matrix(a)
     prop = a.prop
-    seed = int(os.environ.get('VERIF_SEED', '0') or 0)
+    seed = int(os.environ.get('VERIF_SEED', '1') or 1)
     t0 = time.time()
     build = os.path.join(VERIF, 'build', prop if os.path.realpath(a.repo) == '/repo' else prop + '-' + hashlib.sha256(a.repo.encode()).hexdigest()[:8])
     shutil.rmtree(build, ignore_errors=True)
